@@ -4,4 +4,6 @@ go 1.23
 
 require github.com/gopcua/opcua v0.0.0
 
+require github.com/google/uuid v1.6.0 // indirect
+
 replace github.com/gopcua/opcua => /repo
